@@ -89,7 +89,15 @@ def run(ctx):
                            wr.loc(c))
     ctx.floor('R12.3', 'i32 page-header fields with computed values', n, 8)
     ck = wr.func('check_32')
-    ctx.ob('R12.3', 'writer.check_32:raises-for-values-that-do-not-fit', 'if x > 2 ** 31' in src(ck) and 'raise OverflowError' in src(ck)
-           and norm(ck.body[-1]) == 'return x', 'x > 2**31 raises (exactly 2**31 slips through: noted, unreachable with MAX_PAGE_SIZE)', wr.loc(ck))
-    ctx.note('R12.3 note: check_32 tests x > 2**31, off by one at exactly 2**31; a 2 GiB page is unreachable with MAX_PAGE_SIZE = 500 MiB')
+    tests = [x for x in ast.walk(ck) if isinstance(x, ast.If) and any(isinstance(r, ast.Raise) for r in x.body)]
+    okb = False
+    if len(tests) == 1 and isinstance(tests[0].test, ast.Compare) and len(tests[0].test.ops) == 1:
+        t = tests[0].test
+        try:
+            bound = eval(compile(ast.Expression(t.comparators[0]), '<bound>', 'eval'), {'__builtins__': {}})
+        except Exception:
+            bound = None
+        okb = (isinstance(t.ops[0], ast.GtE) and bound == 2 ** 31) or (isinstance(t.ops[0], ast.Gt) and bound == 2 ** 31 - 1)
+    ctx.ob('R12.3', 'writer.check_32:raises-for-values-that-do-not-fit', okb and 'raise OverflowError' in src(ck),
+           'the largest i32 is 2**31 - 1: `%s`' % (norm(tests[0].test) if tests else '?'), wr.loc(ck))
     ctx.exhaustive = True
